@@ -109,12 +109,14 @@ Example C45_nonvacuous :
                p_range_size := 2; p_transposed := false |}%Z in
   let p2 := {| p_range := [0; 1]; p_domain := [0; 1]; p_domain_size := 5;
                p_range_size := 2; p_transposed := false |}%Z in
-  let x := LVar "x" 0 (-1) (-1) in
-  let xprev := LVar "x" 0 0 (-1) in
+  let x := LVar "x" 0 0 (-1) (-1) in
+  let xprev := LVar "x" 0 0 0 (-1) in
+  let xintf := LVar "x" 1 0 (-1) (-1) in
   let ctx := [FBinR OAdd (Leaf x); FEval "f" [Leaf (LScalar 1)] [Leaf x];
               FBinL OMul (Leaf (LScalar 2))]%Z in
   (forall a b : buffer, (fun c : buffer => c) a = (fun c => c) b -> a = b) /\
-  LProj p1 <> LProj p2 /\ x <> xprev /\
+  LProj p1 <> LProj p2 /\ x <> xprev /\ x <> xintf /\
+  key_eqb (plug ctx (Leaf x)) (plug ctx (Leaf xintf)) = false /\
   key_eqb (plug ctx (Leaf (LProj p1))) (plug ctx (Leaf (LProj p2))) = false /\
   key_eqb (plug ctx (Leaf x)) (plug ctx (Leaf xprev)) = false /\
   key_eqb (plug ctx (Leaf x)) (plug ctx (Leaf x)) = true /\
